@@ -27,5 +27,16 @@ if [ -n "$demo" ]; then
   if go test -vet=off -count=1 -run 'TestC|TestSeed|TestDemo|TestMut|Test.*[Mm]utant|Test.*Demo' ./$pkgdir/ >>"$log" 2>&1; then res="$res demo_mutant=PASS(bad)"; else res="$res demo_mutant=FAIL(good)"; fi
   rm -f "$wt/$pkgdir/zz_seeded_demo_test.go"
 fi
-if go test -vet=off -count=1 ./... >"$mdir/suite.log" 2>&1; then res="$res suite=PASS"; else res="$res suite=FAIL"; fi
+if go test -vet=off -count=1 ./... >"$mdir/suite.log" 2>&1; then res="$res suite=PASS"; else
+  # wall-clock assertions (TestDoTimesHonoursStepBudget, fuzzwatch, sleep tests) fail on a loaded machine:
+  # re-run only the failing packages, up to three times, before believing the failure
+  pk=$(grep -E "^FAIL[[:space:]]+github.com" "$mdir/suite.log" | awk '{print $2}' | sed 's#github.com/luthersystems/elps#.#' | sort -u | tr '\n' ' ')
+  okretry=no
+  if [ -n "$pk" ]; then
+    for try in 1 2 3; do
+      if go test -vet=off -count=1 $pk >>"$mdir/suite.log".retry 2>&1; then okretry=yes; break; fi
+    done
+  fi
+  if [ "$okretry" = yes ]; then res="$res suite=PASS(after-retry-of:$(echo $pk | tr ' ' ','))"; else res="$res suite=FAIL"; fi
+fi
 echo "$res" | tee -a "$log"
